@@ -188,6 +188,60 @@ def stage_stack(ctx, rng, gbin, gmodel):
             "sample": {"nops": cases[-1]["nops"], "script": cases[-1]["script"][:24] + "..", "real": real[-1].get("steps", [])[:8]}}
 
 
+
+# ---------------------------------------------------------------- K1b: MergeQueue bookkeeping correspondence
+def mq_script(rng, parts, budget, depth=0):
+    """random nested operation script for `gv_sched mq` / the extracted q_* functions"""
+    toks = []
+    while budget[0] > 0:
+        budget[0] -= 1
+        r = rng.below(100)
+        p = rng.below(parts)
+        if r < 30:
+            toks.append("f%d:%d" % (p, rng.choice([0, 1, 1, 2, 2, 3, 4])))
+        elif r < 85:
+            toks.append("p%d[" % p)
+            if depth < 3 and rng.chance(75):
+                sub = [max(1, min(budget[0], 1 + rng.below(6)))]
+                budget[0] -= sub[0]
+                toks += mq_script(rng, parts, sub, depth + 1)
+            toks.append("]")
+        else:
+            toks.append("t%d" % p)
+        if depth and rng.chance(25):
+            break
+    return toks
+
+
+def stage_mq(ctx, rng, gbin, gmodel):
+    n = 600 if ctx["tier"] == "quick" else 20000
+    cases = []
+    for i in range(n):
+        parts = rng.choice([1, 2, 2, 3, 3, 4, 5])
+        if rng.chance(50):      # orderly prefix: every partition finalizes once, then free-for-all
+            pre = ["f%d:%d" % (p, rng.choice([0, 1, 2, 3, 5])) for p in rng.shuffle(range(parts))]
+            cut = rng.below(parts + 1)
+            toks = pre[:cut] + mq_script(rng, parts, [10 + rng.below(25)]) + pre[cut:] + mq_script(rng, parts, [8 + rng.below(20)])
+        else:
+            toks = mq_script(rng, parts, [10 + rng.below(40)])
+        cases.append({"id": "q%d" % i, "parts": parts, "script": " ".join(toks)})
+    real = common.run_harness(gbin, "mq", cases, timeout=600)
+    mout = common.run_model(gmodel, "mq", ["case %d %s" % (c["parts"], c["script"]) for c in cases], timeout=600)
+    mism, events, distinct, window = [], 0, set(), 0
+    for c, r, m in zip(cases, real, mout):
+        got = r.get("events")
+        ml = m.split(";")
+        events += len(ml)
+        distinct.add(m)
+        # states in which exactly one run is queued, no input remains, and a merge is in flight
+        window += sum(1 for e in ml if e.split("| ")[-1].startswith("1/0/") and not e.split("| ")[-1].startswith("1/0/0/"))
+        if got != ml:
+            k = next((j for j, (a, b) in enumerate(zip(got or [], ml)) if a != b), min(len(got or []), len(ml)))
+            mism.append({"case": c, "first_diff_event": k, "real": (got or [json.dumps(r)[:200]])[k:k + 2], "model": ml[k:k + 2]})
+    return {"scripts": len(cases), "events": events, "distinct": len(distinct), "mismatches": mism,
+            "in_flight_single_run_states": window,
+            "sample": {"parts": cases[-1]["parts"], "script": cases[-1]["script"][:60] + "..", "real": (real[-1].get("events") or [])[:6]}}
+
 # ---------------------------------------------------------------- K2: real queries under schedules
 def det_case(cid, name, setup, sql, parts, sch, **kw):
     c = {"id": cid, "partitions": parts, "stmts": setup + [sql], "sched": sch, "timeout_s": 120, "_name": name}
@@ -404,6 +458,27 @@ def stage_threaded(ctx, rng, gbin, gmodel):
             "sample": {"trace": owners[0][2][:12], "verdict": verdicts[0]} if owners else None}
 
 
+def search_sort(ctx, rng, gbin):
+    """property-level search used when the merge-queue correspondence broke: big ORDER BY under schedules"""
+    setup = ["create temp table tb as select a, (a * 7919) % 100003 as k from generate_series(1, 200000) s(a)"]
+    sql = "select k, a from tb order by k, a"
+    cases = [det_case("sortbase", "order_by_full", setup, sql, 1, {"kind": "fifo", "seed": 1})]
+    for j in range(10):
+        cases.append(det_case("sort-%d" % j, "order_by_full", setup, sql, rng.choice([3, 4, 8, 16]), sched(rng, rng.choice(["random", "lifo", "starve_first"]))))
+    send = [{k: v for k, v in c.items() if not k.startswith("_")} for c in cases]
+    real = common.run_harness(gbin, "det", send, timeout=1200)
+    base, found = None, []
+    for c, r in zip(cases, real):
+        out = canon("order_by_full", r.get("result"))
+        if c["id"] == "sortbase":
+            base = out
+        elif out != base:
+            found.append(("ORDER BY result differs from the sequential run (merge queue)",
+                          {"case": {k: v for k, v in c.items() if not k.startswith("_")}, "query_kind": "order_by_full",
+                           "outcome": out[:2], "sequential": (base or ("?",))[:2]}))
+    return found[:3]
+
+
 def match_known(kind, replay, kf):
     for k in kf:
         if k.get("property") == PID and k.get("id") == kind:
@@ -424,6 +499,7 @@ def run(ctx):
     discharged = 0 if proof_broken else len(obligations)
     gmodel = common.build_ocaml("sched")
     k1 = stage_stack(ctx, rng, gbin, gmodel)
+    k1b = stage_mq(ctx, rng, gbin, gmodel)
     k2 = stage_det(ctx, rng, gbin)
     k3 = stage_threaded(ctx, rng, gbin, gmodel)
     kf = common.known_findings().get("known", [])
@@ -437,29 +513,38 @@ def run(ctx):
     out["known"] = sorted(seen_known)
     for what, replay in k2["violations"] + k3["violations"]:
         out["violations"].append({"what": what, "replay": replay, "no_input": False})
-    if proof_broken or k1["mismatches"]:
+    for m in k1["mismatches"][:3]:
+        out["violations"].append({"what": "correspondence: real ExecutionStack::pop_next differs from model/ExecStack.v pop_next",
+                                  "replay": m, "no_input": False})
+    if k1b["mismatches"]:
+        # the merge queue's bookkeeping differs from the model the theorems are about: look for a query
+        # whose ORDER BY result is wrong on some schedule, and report the operation script in any case
+        for what, replay in search_sort(ctx, rng, gbin):
+            out["violations"].append({"what": what, "replay": replay, "no_input": False})
+        for m in k1b["mismatches"][:3]:
+            out["violations"].append({"what": "correspondence: real MergeQueue bookkeeping (is_complete / poll_merge_next / take_sorted_run) differs from model/BarrierMergeQueue.v",
+                                      "replay": m, "no_input": False})
+    if proof_broken and not (k2["violations"] or k3["violations"] or k1["mismatches"] or k1b["mismatches"]):
         reason = {"proof_failed_at": pr.get("failed_at"), "log_tail": pr["log"][-1500:] if not pr["ok"] else "",
-                  "assumption_problems": bad_assum, "audit": audit, "stack_mismatches": k1["mismatches"][:3]}
-        # the K2/K3 stages above ARE the search for a failing schedule on the implementation; if they
-        # found one it is already reported with its replay.  Otherwise report the broken link itself.
-        if not (k2["violations"] or k3["violations"]):
-            what = ("theorem(s) in %s no longer check" % PROPS) if proof_broken else \
-                "correspondence: real ExecutionStack::pop_next differs from model/ExecStack.v pop_next"
-            out["violations"].append({"what": what, "replay": reason, "no_input": not k1["mismatches"]})
+                  "assumption_problems": bad_assum, "audit": audit}
+        out["violations"].append({"what": "theorem(s) in %s no longer check" % PROPS, "replay": reason, "no_input": True})
     out["coverage"] = {
         "obligations": len(obligations), "discharged": discharged,
         "checker_cmd": "cd coq && make props/C04.vo (Print Assumptions parsed; Admitted/Axiom audit over coq/)",
         "trusted_base": ["Coq 8.16.1 kernel", "hand transcription of the lock regions into model/Barrier*.v (atomic step = one critical section)",
                          "extraction (ExtrOcamlBasic) + ocaml/sched.ml", "harness/src/bin/gv_sched.rs (deterministic scheduler, scripted Effects)",
-                         "hooks: execution::verif_execution_stack re-export; threaded::verif_log event log",
+                         "hooks: execution::verif_execution_stack re-export; threaded::verif_log event log; sort::verif_merge_queue re-export, MergeQueue::verif_state, verif_hooks::IN_FLIGHT callback",
                          "not exhibitable: parking_lot / rayon internals, OS timing, weak-memory effects of the Relaxed/Release atomics"],
         "theorems": obligations,
-        "evaluations": k1["steps"] + k2["runs"] + k3["traces"],
-        "distinct_nontrivial": k1["distinct"] + k2["distinct"] + k3["traces"],
+        "evaluations": k1["steps"] + k1b["events"] + k2["runs"] + k3["traces"],
+        "distinct_nontrivial": k1["distinct"] + k1b["distinct"] + k2["distinct"] + k3["traces"],
+        "merge_queue_scripts": k1b["scripts"], "merge_queue_events_compared": k1b["events"],
+        "merge_queue_in_flight_single_run_states": k1b["in_flight_single_run_states"],
         "rule": "K1: every pop_next step of random answer scripts compared between the real ExecutionStack and the extracted model (exact; distinct = distinct step sequences). "
+                "K1b: every event (result, woken partitions, runs/remaining/running_merges/is_complete) of random nested operation scripts (finalize, poll_merge_next with other operations while the merge is in flight, take_sorted_run) compared between the real MergeQueue and the extracted q_* functions (exact). "
                 "K2: real queries with every barrier kind under seed-chosen deterministic schedules (fifo/lifo/random+spurious/starve, slow consumer, cancel, exhaustive choice-prefix enumeration): no hang, no unfinished task, same rows as the 1-partition fifo run, errors surface, cancel ends the stream (distinct = distinct (query, partitions, policy, spurious, consumer rate, cancel step)). "
                 "K3: per-task event logs of the real rayon pool accepted by the extracted TaskSched.step.",
-        "samples": [k1["sample"], k2["sample"], k3["sample"]],
+        "samples": [k1["sample"], k1b["sample"], k2["sample"], k3["sample"]],
         "stack_scripts": k1["scripts"], "stack_steps_compared": k1["steps"], "det_cases": k2["cases"], "det_runs": k2["runs"],
         "threaded_task_traces": k3["traces"], "threaded_task_events": k3["events"],
         "polls_after_error_observed": k2["polls_after_error"], "shapes_not_plannable": k2["shapes_not_plannable"], "exhaustive": False,
@@ -480,6 +565,14 @@ def replay(ctx, payload):
     if not case:
         print("replay has no engine input (proof / correspondence breakage): %s" % payload.get("what"))
         return 2
+    if "script" in case and "parts" in case:
+        gmodel = common.build_ocaml("sched")
+        r = common.run_harness(gbin, "mq", [case])[0]
+        m = common.run_model(gmodel, "mq", ["case %d %s" % (case["parts"], case["script"])])[0].split(";")
+        got = r.get("events", [])
+        for a, b in zip(got, m):
+            print("%-40s %s %s" % (a, "==" if a == b else "!=", b))
+        return 1 if got != m else 0
     if "script" in case:
         gmodel = common.build_ocaml("sched")
         r = common.run_harness(gbin, "stack", [case])[0]
